@@ -36,6 +36,19 @@ def search(ctx, broken):
         out["strategy"].append("reference-model run: {} cases".format(r["evaluations"]))
     except Exception as e:  # noqa: BLE001
         out["strategy"].append("reference driver unavailable: {}".format(e))
+    # histories (values / uncertainties / correlations changed, recalculated, read): the law must
+    # hold with the CURRENT values and uncertainties; oracle = the formula built afresh
+    try:
+        from props import _worldcheck as W
+        r = W.run(ctx, "c05", ctx.n(300, 3000), 30)
+        for f in r["failures"]:
+            if f.get("oracle") == "independent":
+                f = dict(f, signature="c01:" + f["signature"].split(":", 1)[1])
+                out["failures"].append(f)
+        out["strategy"].append("edit/recalculate histories with afresh-built oracle: {}".format(
+            r["evaluations"]))
+    except Exception as e:  # noqa: BLE001
+        out["strategy"].append("history search failed: {}".format(e))
     fs, tried = X.finite_difference_search(ctx, ctx.n(200, 2000))
     out["failures"] += [f for f in fs if f["signature"].startswith("c01")]
     out["strategy"].append("math-module value oracle: {} cases".format(tried))
